@@ -167,6 +167,9 @@ def build(seed, tier='quick'):
             m.remove_specs(m.select(spec))
         else:
             plan.append({'op': 'restart'})
+    if prng.random() < 0.25:
+        # a failed load earlier in the same process must not matter for later loads
+        plan = P.sprinkle_faults(prng, plan, 1)
     return u, plan
 
 
